@@ -91,6 +91,75 @@ theorem parse_amount_negative_only_by_minus (s : List Char) (v : Int) (h : parse
       · injection hs with hs; subst hs
         exact ⟨ds, n, h1, h2, Or.inl h3⟩
 
+/-- what the decimal decoder accepts: the empty string, or (after an optional, silently dropped "0x"/"0X")
+    an optional sign followed by a non-empty string of decimal digits — nothing else -/
+theorem parse_amount_accepts_only (s : List Char) (v : Int) (h : parseAmount s = some v) :
+    (s = [] ∧ v = 0) ∨
+    ∃ body ds n, (s = body ∨ s = '0' :: 'x' :: body ∨ s = '0' :: 'X' :: body) ∧
+      ds ≠ [] ∧ ds.all isDigit = true ∧ n = digitsVal ds 0 ∧
+      ((body = '-' :: ds ∧ v = -(n : Int)) ∨ (body = '+' :: ds ∧ v = (n : Int)) ∨ (body = ds ∧ v = (n : Int))) := by
+  have pd : ∀ ds n, parseDigits ds = some n → ds ≠ [] ∧ ds.all isDigit = true ∧ n = digitsVal ds 0 := by
+    intro ds n hp
+    unfold parseDigits at hp
+    split at hp
+    · cases hp
+    · rename_i hne
+      split at hp
+      · rename_i hall
+        injection hp with hp
+        refine ⟨?_, hall, hp.symm⟩
+        intro e; subst e; simp at hne
+      · cases hp
+  have key : ∀ r : List Char, setString10 r = some v → ∃ ds n, parseDigits ds = some n ∧
+      ((r = '-' :: ds ∧ v = -(n : Int)) ∨ (r = '+' :: ds ∧ v = (n : Int)) ∨ (r = ds ∧ v = (n : Int))) := by
+    intro r hr
+    unfold setString10 at hr
+    split at hr
+    · rename_i ds
+      cases hp : parseDigits ds with
+      | none => rw [hp] at hr; cases hr
+      | some n =>
+        rw [hp] at hr; simp only [Option.map] at hr
+        injection hr with hr; exact ⟨ds, n, hp, Or.inl ⟨rfl, hr.symm⟩⟩
+    · rename_i ds
+      cases hp : parseDigits ds with
+      | none => rw [hp] at hr; cases hr
+      | some n =>
+        rw [hp] at hr; simp only [Option.map] at hr
+        injection hr with hr; exact ⟨ds, n, hp, Or.inr (Or.inl ⟨rfl, hr.symm⟩)⟩
+    · cases hp : parseDigits r with
+      | none => rw [hp] at hr; cases hr
+      | some n =>
+        rw [hp] at hr; simp only [Option.map] at hr
+        injection hr with hr; exact ⟨r, n, hp, Or.inr (Or.inr ⟨rfl, hr.symm⟩)⟩
+  unfold parseAmount at h
+  split at h
+  · rename_i he
+    injection h with h
+    left
+    refine ⟨?_, h.symm⟩
+    cases s with
+    | nil => rfl
+    | cons c cs => simp at he
+  · right
+    split at h
+    · cases h
+    · rename_i r hs
+      obtain ⟨ds, n, h1, h2⟩ := key r h
+      obtain ⟨p1, p2, p3⟩ := pd ds n h1
+      unfold stripHexPrefix at hs
+      split at hs
+      · split at hs
+        · cases hs
+        · injection hs with hs; subst hs
+          exact ⟨_, ds, n, Or.inr (Or.inl rfl), p1, p2, p3, h2⟩
+      · split at hs
+        · cases hs
+        · injection hs with hs; subst hs
+          exact ⟨_, ds, n, Or.inr (Or.inr rfl), p1, p2, p3, h2⟩
+      · injection hs with hs; subst hs
+        exact ⟨_, ds, n, Or.inl rfl, p1, p2, p3, h2⟩
+
 example : parseAmount "-60".toList = some (-60) := by decide
 example : parseAmount "+5".toList = some 5 := by decide
 example : parseAmount "007".toList = some 7 := by decide
